@@ -6,10 +6,12 @@ Block contracts on nemoguardrails/colang/v2_x/runtime/statemachine.py::_clean_up
   PICK   the loop that selects the instances to discard: whatever the clock says, every selected uid is the uid of an instance of
          `state.flow_states` that is DONE (status stopped or finished) and not activated - a waiting, starting, started or stopping
          instance, or an activated one, is never selected, however long ago its status changed; nothing is modified
+  REMOVE the body of the loop that discards them: exactly the selected entry leaves `state.flow_states`, every other instance stays as the
+         same object, the list of its flow id loses one item, no exception
   _is_done_flow  status is stopped or finished, nothing else
 
 NOT decided here (bounded native check only): that discarding a done instance leaves every later reaction unchanged (a whole-history
-statement), the removal loop itself, save / restore.  The clock (`datetime.now()`, `timedelta`, their `-` and `>`) is arbitrary."""
+statement), the composition of the REMOVE steps over the loop, save / restore.  The clock (`datetime.now()`, `timedelta`, their `-` and `>`) is arbitrary."""
 from pyvc.api import *
 
 SM = "nemoguardrails/colang/v2_x/runtime/statemachine.py"
@@ -46,4 +48,37 @@ contract(
     raises_ensures=["unchanged(state.flow_states)", "all(unchanged(val(state.flow_states, f)) for f in keys(state.flow_states))"],
     loops={"for flow_state in state.flow_states.values() #2": dict(
         modifies=["states_to_be_removed"], inv=["is_list(states_to_be_removed)", "fresh(states_to_be_removed)", PICKED_OK])},
+)
+
+# ---------------------------------------------------------------------------------------------------------------------------
+# REMOVE  the BODY of `for flow_state_uid in states_to_be_removed:` - for ONE selected uid, any state: exactly that entry leaves
+#         `state.flow_states` (every other entry stays, as the same object: no other instance is touched), the list of instances of its
+#         flow id loses exactly one item, the parent - if it still exists and lists the uid - loses exactly one child entry, and no
+#         exception is raised (the instance is in the list of its flow id: precondition, kept by the native state invariants of C09)
+# ---------------------------------------------------------------------------------------------------------------------------
+FS_R = ("all(is_obj(val(state.flow_states, f)) and has(val(state.flow_states, f), 'parent_uid') and has(val(state.flow_states, f), 'flow_id') "
+        "    and has(val(state.flow_states, f), 'child_flow_uids') and is_list(val(state.flow_states, f).child_flow_uids) "
+        "    and is_str(val(state.flow_states, f).flow_id) "
+        "    and (is_none(val(state.flow_states, f).parent_uid) or is_str(val(state.flow_states, f).parent_uid)) "
+        "    and all(is_str(c) for c in val(state.flow_states, f).child_flow_uids) for f in keys(state.flow_states))")
+ME = "val(state.flow_states, flow_state_uid)"
+MINE = "val(state.flow_id_states, %s.flow_id)" % ME
+contract(
+    SM, "_clean_up_state", prop="C11",
+    block=("flow_state = state.flow_states[flow_state_uid]", "<end>"), loop_body=True,
+    vars={"state": "V", "flow_state_uid": "V"},
+    must_reach=["state.flow_states[flow_state.parent_uid].child_flow_uids.remove(flow_state_uid)", "del state.flow_states[flow_state_uid]"],
+    requires=["is_obj(state)", "has(state, 'flow_states')", "has(state, 'flow_id_states')", "is_dict(state.flow_states)",
+              "is_dict(state.flow_id_states)", "state.flow_states is not state.flow_id_states", FS_R,
+              "is_str(flow_state_uid)", "has(state.flow_states, flow_state_uid)",
+              "has(state.flow_id_states, %s.flow_id)" % ME, "is_list(%s)" % MINE,
+              "any(item(%s, j) is %s for j in range(llen(%s)))" % (MINE, ME, MINE),
+              # the lists of instances per flow id are not lists of child uids
+              "all(val(state.flow_states, f).child_flow_uids is not %s for f in keys(state.flow_states))" % MINE],
+    ensures=["state.flow_states is old(state.flow_states)", "not has(state.flow_states, flow_state_uid)",
+             "all(old(has(state.flow_states, f)) and val(state.flow_states, f) is old(val(state.flow_states, f)) for f in keys(state.flow_states))",
+             "all(implies(f is not flow_state_uid, has(state.flow_states, f)) for f in keys_old(state.flow_states))",
+             "llen(old(%s)) == old(llen(%s)) - 1" % (MINE, MINE),
+             "unchanged(state.flow_id_states)"],
+    raises={},
 )
